@@ -25,6 +25,9 @@ THEOREMS = [
     "Typedpy.C07.nested_resync_counterexample",
     "Typedpy.C07.C07_statement_false",
     "Typedpy.C07.round_trip_example",
+    "Typedpy.C07.cache_transparent",
+    "Typedpy.C07.history_transparent",
+    "Typedpy.C07.history_transparent_from_empty",
 ]
 RULE = ("class hierarchies (1-3 levels of single inheritance, fresh classes per case) with 1-7 Integer / nested "
         "fields (nested classes directly, in Array, in Set; nesting depth <= 3), per-class _serialization_mapper "
@@ -34,7 +37,11 @@ RULE = ("class hierarchies (1-3 levels of single inheritance, fresh classes per 
         "...) chosen to collide under upper()/camelCase; valid instances with optional fields absent with p in "
         "{0.2,0.5,0.8}; camel_case_convert on/off; use_strict_mapping on/off; explicit mapper= (22%, of which 30% "
         "with a non-field key) to Serializer and Deserializer; plus the identity-keyed document through the "
-        "Deserializer (fallback / strict behaviour). Non-trivial = some mapper, camel flag or explicit mapper "
+        "Deserializer (fallback / strict behaviour); 40% of the cases carry a HISTORY of 1-3 earlier calls in the same "
+        "process on the same class objects (same class with the other / same camel flag, same / other override, "
+        "a nested class serialized on its own first), plus a directed stream of [camel, plain, camel] and [plain, "
+        "camel] histories per class (process-wide cache aggregated_mapper_by_class); every call of a history is "
+        "compared with the model (which threads the cache) and judged by the oracle. Non-trivial = some mapper, camel flag or explicit mapper "
         "present; distinct by sha256 of the canonical case line")
 ASSUMPTIONS = [
     "rename-only mappers: no FunctionCall / Constant values, no Map-nested structures, no _deserialization_mapper, single inheritance",
@@ -60,11 +67,32 @@ describe = S.describe
 
 
 def judge(case, impl, model):
-    msg = S.correspondence(case, impl, model)
-    fails = []
+    """the main call and every call of its history are judged alike"""
     cd = case["cls"]
+    pre = case.get("pre") or []
+    hist = ""
+    if pre:
+        hist = (" [history before this call: "
+                + "; ".join(f"{c['target']} camel={c['camel']} override={'yes' if c['explicit'] else 'no'}" for c in pre)
+                + "]")
+    msg, fails = judge_call(cd, case, impl, model, hist)
+    ipre, mpre = impl.get("pre") or [], model.get("pre") or []
+    if pre and (len(ipre) != len(pre) or len(mpre) != len(pre)):
+        return msg or "history length mismatch between case, real run and model", fails
+    for i, (call, im, mo) in enumerate(zip(pre, ipre, mpre)):
+        tcd = S.find_cd(cd, call["target"])
+        m2, f2 = judge_call(tcd, call, im, mo, f" [call #{i + 1} of the history, on {call['target']}]")
+        if m2 and not msg:
+            msg = f"history call #{i + 1}: {m2}"
+        fails += f2
+    return msg, fails
+
+
+def judge_call(cd, case, impl, model, hist):
+    msg = S.correspondence(cd, impl, model)
+    fails = []
     # ---- explicit mapper naming a non-field must be rejected when the wrapper is built
-    bad = S.bad_explicit_keys(case)
+    bad = S.bad_explicit_keys(case, cd)
     if bad:
         for w, name in (("ser_wrapper", "Serializer"), ("des_wrapper", "Deserializer")):
             if impl.get(w) == "ok":
@@ -78,7 +106,7 @@ def judge(case, impl, model):
         fails.append((f"serialize-raises:{impl['ser_err']}",
                       f"serializing a valid instance raised {impl['ser_err']}: {impl.get('ser_msg')} for instance "
                       + json.dumps(case["kw"])[:200] + " mappers "
-                      + json.dumps([lv["mapper"] for lv in cd["levels"]])[:300]))
+                      + json.dumps([lv["mapper"] for lv in cd["levels"]])[:300] + hist))
     if "doc" not in impl:
         return msg, fails
     real_doc = S.wire_to_py(impl["doc"])
@@ -86,8 +114,9 @@ def judge(case, impl, model):
     # ---- key-set law at every level (incl. DoNotSerialize absent, no collision the mapper does not make)
     if real_doc != spec_doc:
         fails.append((keyset_key(real_doc, spec_doc),
-                      "serialized document is not the image of the populated fields under the aggregated "
-                      "mapping: real " + json.dumps(real_doc)[:300] + " specified " + json.dumps(spec_doc)[:300]))
+                      f"serialized document (camel_case_convert={case['camel']}) is not the image of the populated "
+                      "fields under the aggregated mapping: real " + json.dumps(real_doc)[:300] + " specified "
+                      + json.dumps(spec_doc)[:300] + hist))
     # ---- round trip inside the demanded domain
     hyp = model["hyp"]
     if hyp["dom"] and "deser" in impl:
@@ -98,7 +127,7 @@ def judge(case, impl, model):
             key = "roundtrip:unexplained" if hyp["rt"] else "nested-resync"
             fails.append((key, "deserialize(serialize(x)) != x: document " + json.dumps(real_doc)[:200] + " gave "
                           + json.dumps(r)[:300] + " for instance " + json.dumps(case["kw"])[:200]
-                          + " mappers " + json.dumps([lv["mapper"] for lv in cd["levels"]])[:300]))
+                          + " mappers " + json.dumps([lv["mapper"] for lv in cd["levels"]])[:300] + hist))
     return msg, fails
 
 
